@@ -1,6 +1,7 @@
 import PRV.Driver.C19
 import PRV.Driver.C01
 import PRV.Driver.C14
+import PRV.Driver.C15
 import PRV.Driver.C10
 import PRV.Driver.C20
 import PRV.Driver.C11
@@ -20,6 +21,8 @@ def main (args : List String) : IO UInt32 := do
   | ["model", "c14"] => run C14.machine; return 0
   | ["spec", "c14"] => run C14.machine; return 0
   | ["monitor", "c14"] => runMonitor C14.monitor; return 0
+  | ["model", "c15"] => run C15.machine; return 0
+  | ["spec", "c15"] => run C15.machine; return 0
   | ["model", "c19"] => run (C19.machine false); return 0
   | ["spec", "c19"] => run (C19.machine true); return 0
   | ["model", "c10"] => run C10.machine; return 0
